@@ -780,3 +780,144 @@ Proof.
   - intros k Hk. apply init_config_chans in Hk as (i' & j & pr' & -> & Hpr' & Hj).
     intros n rest E. cbn in E. injection E as -> -> _. rewrite Hpr in Hpr'. injection Hpr' as <-. lia.
 Qed.
+
+(* ------------------------------------------------------------------ the process table after a move, pointwise *)
+Definition mv_spawned (mv : move) : gmap pid proc :=
+  spawned (mv_self mv) (eff_next0 (mv_proc mv) (mv_eff mv)) (e_spawn (mv_eff mv)).
+
+Definition proc_upd (mv : move) (r : pid) (x : option proc) : option proc :=
+  if decide (r = mv_self mv) then
+    match e_after (mv_eff mv) with
+    | Continue p' => Some (Proc (pr_provs p') (pr_body0 p') (eff_next1 (mv_proc mv) (mv_eff mv)))
+    | Finish => None
+    end
+  else match mv_spawned mv !! r with
+       | Some v => Some v
+       | None => if decide (mv_kill mv = Some r) then None else x
+       end.
+
+Lemma procs_apply_move_lookup c mv r : procs (apply_move c mv) !! r = proc_upd mv r (procs c !! r).
+Proof.
+  rewrite procs_apply_move. unfold procs_after, proc_upd. fold (mv_spawned mv).
+  assert (Hu : (mv_spawned mv ∪ procs (kill_proc c (mv_kill mv))) !! r =
+               match mv_spawned mv !! r with
+               | Some v => Some v
+               | None => if decide (mv_kill mv = Some r) then None else procs c !! r
+               end).
+  { destruct (mv_spawned mv !! r) as [v|] eqn:Es; [by rewrite (lookup_union_Some_l _ _ _ _ Es)|].
+    rewrite (lookup_union_r _ _ _ Es). destruct (mv_kill mv) as [s|]; cbn.
+    - destruct (decide (Some s = Some r)) as [[= ->]|Hne]; [by rewrite lookup_delete|].
+      rewrite lookup_delete_ne by congruence. done.
+    - rewrite decide_False by done. done. }
+  destruct (decide (r = mv_self mv)) as [->|Hne].
+  - destruct (e_after (mv_eff mv)); [by rewrite lookup_insert|by rewrite lookup_delete].
+  - destruct (e_after (mv_eff mv)); [rewrite lookup_insert_ne by done|rewrite lookup_delete_ne by done]; exact Hu.
+Qed.
+
+(* the identifiers of the process table a move touches *)
+Definition touches (mv : move) (r : pid) : Prop :=
+  r = mv_self mv \/ mv_kill mv = Some r \/ is_Some (mv_spawned mv !! r).
+
+Lemma proc_upd_id mv r x : ~ touches mv r -> proc_upd mv r x = x.
+Proof.
+  intros H. unfold proc_upd. rewrite decide_False by (intros ->; apply H; by left).
+  destruct (mv_spawned mv !! r) eqn:E; [destruct H; right; right; by eexists|].
+  rewrite decide_False by (intros E'; apply H; right; by left). done.
+Qed.
+
+Lemma mv_spawned_fresh mv r : eff_wf (mv_self mv) (mv_proc mv) (mv_eff mv) ->
+  is_Some (mv_spawned mv !! r) -> exists n, r = mv_self mv ++ [n] /\ (pr_next (mv_proc mv) <= n)%nat.
+Proof.
+  intros Hwf [v Hv]. apply spawned_lookup_Some in Hv as (n & -> & Hn & _). exists n. split; [done|].
+  pose proof (eff_base_ge _ _ _ Hwf). unfold eff_next0 in Hn. lia.
+Qed.
+
+(* an identifier in use is not one the process p will hand out *)
+Lemma ns_ok_not_fresh_pid c p pp q n : ns_ok c -> procs c !! p = Some pp -> is_Some (procs c !! q) ->
+  (pr_next pp <= n)%nat -> q ≠ p ++ [n].
+Proof. intros Hns Hp Hq Hn ->. destruct (Hns _ _ Hp) as [H _]. specialize (H _ Hq n [] eq_refl). lia. Qed.
+Lemma ns_ok_not_fresh_cid c p pp k n : ns_ok c -> procs c !! p = Some pp -> is_Some (chans c !! k) ->
+  (pr_next pp <= n)%nat -> k ≠ p ++ [n].
+Proof. intros Hns Hp Hk Hn ->. destruct (Hns _ _ Hp) as [_ H]. specialize (H _ Hk n [] eq_refl). lia. Qed.
+
+Lemma procs_apply_move_old md D c ch mv q :
+  ns_ok c -> move_wf md D c ch mv -> is_Some (procs c !! q) -> q ∉ movers ch ->
+  procs (apply_move c mv) !! q = procs c !! q.
+Proof.
+  intros Hns Hwf Hq Hnm. rewrite procs_apply_move_lookup. apply proc_upd_id.
+  intros [->|[Hk|Hs]].
+  - apply Hnm, (mwf_movers _ _ _ _ _ Hwf). by left.
+  - apply Hnm, (mwf_movers _ _ _ _ _ Hwf). by right.
+  - apply mv_spawned_fresh in Hs as (n & -> & Hn); [|apply (mwf_eff _ _ _ _ _ Hwf)].
+    eapply ns_ok_not_fresh_pid; [done|apply (mwf_self _ _ _ _ _ Hwf)|done|done|done].
+Qed.
+
+(* the channels a move writes: within the footprint, or fresh in the acting process's namespace *)
+Lemma writes_footprint md D c ch mv k : move_wf md D c ch mv -> k ∈ writes mv ->
+  k ∈ footprint_ch md D c ch \/ exists n, k = mv_self mv ++ [n] /\ (pr_next (mv_proc mv) <= n)%nat.
+Proof.
+  intros Hwf Hk. unfold writes in Hk. rewrite !elem_of_app in Hk. destruct Hk as [Hk|[Hk|Hk]].
+  - left. unfold footprint_ch. apply elem_of_app. left. by apply (mwf_put _ _ _ _ _ Hwf).
+  - right. destruct (ewf_newch _ _ _ (mwf_eff _ _ _ _ _ Hwf) k Hk) as (n & -> & Hn & _). eauto.
+  - left. unfold footprint_ch. apply elem_of_app. right. by rewrite <- (mwf_close _ _ _ _ _ Hwf).
+Qed.
+
+(* ------------------------------------------------------------------ frame properties of a step *)
+(* A step changes `procs` only at its movers and at fresh pids of the acting process, ... *)
+Theorem step_procs_frame md D F c ch c' r :
+  step md D F c ch = SStep c' -> r ∉ movers ch ->
+  procs c' !! r = procs c !! r \/
+  exists p pp n, p ∈ movers ch /\ procs c !! p = Some pp /\ r = p ++ [n] /\ (pr_next pp <= n)%nat.
+Proof.
+  rewrite step_move. destruct (move_of md D F c ch) as [| |mv] eqn:E; try discriminate.
+  intros [= <-] Hr. apply move_of_wf in E as Hwf. rewrite procs_apply_move_lookup.
+  destruct (decide (is_Some (mv_spawned mv !! r))) as [Hs|Hs].
+  - right. apply mv_spawned_fresh in Hs as (n & -> & Hn); [|apply (mwf_eff _ _ _ _ _ Hwf)].
+    exists (mv_self mv), (mv_proc mv), n. split; [apply (mwf_movers _ _ _ _ _ Hwf); by left|].
+    split; [apply (mwf_self _ _ _ _ _ Hwf)|done].
+  - left. apply proc_upd_id. intros [->|[Hk|Hs']]; [| |done].
+    + apply Hr, (mwf_movers _ _ _ _ _ Hwf). by left.
+    + apply Hr, (mwf_movers _ _ _ _ _ Hwf). by right.
+Qed.
+
+(* ... and `chans` only inside its footprint (the channel it sends on / receives from and the
+   providers it closes) and at fresh channels of the acting process. *)
+Theorem step_chans_frame md D F c ch c' k :
+  step md D F c ch = SStep c' -> k ∉ footprint_ch md D c ch ->
+  chans c' !! k = chans c !! k \/
+  exists p pp n, p ∈ movers ch /\ procs c !! p = Some pp /\ k = p ++ [n] /\ (pr_next pp <= n)%nat.
+Proof.
+  rewrite step_move. destruct (move_of md D F c ch) as [| |mv] eqn:E; try discriminate.
+  intros [= <-] Hk. apply move_of_wf in E as Hwf.
+  destruct (decide (k ∈ writes mv)) as [Hw|Hw]; [|left; by apply chans_apply_move_ne].
+  right. destruct (writes_footprint _ _ _ _ _ _ Hwf Hw) as [?|(n & -> & Hn)]; [done|].
+  exists (mv_self mv), (mv_proc mv), n. split; [apply (mwf_movers _ _ _ _ _ Hwf); by left|].
+  split; [apply (mwf_self _ _ _ _ _ Hwf)|done].
+Qed.
+
+(* the channels of the footprint that an enabled choice reads exist *)
+Lemma step_reads_exist md D F c ch c' k :
+  step md D F c ch = SStep c' -> k ∈ reads md D c ch -> is_Some (chans c !! k).
+Proof.
+  rewrite step_move. destruct (move_of md D F c ch) as [| |mv] eqn:E; try discriminate.
+  intros _. apply move_of_wf in E. apply (mwf_reads _ _ _ _ _ E).
+Qed.
+
+(* A step does not change what another choice would do, unless that choice acts on a channel the
+   step touched. *)
+Theorem step_frame_other md D F c a c1 b :
+  ns_ok c -> step md D F c a = SStep c1 ->
+  movers a ## movers b -> (forall q, q ∈ movers b -> is_Some (procs c !! q)) ->
+  (forall k, k ∈ reads md D c b -> is_Some (chans c !! k) /\ k ∉ footprint_ch md D c a) ->
+  move_of md D F c1 b = move_of md D F c b /\ reads md D c1 b = reads md D c b /\ closes md D c1 b = closes md D c b.
+Proof.
+  intros Hns. rewrite step_move. destruct (move_of md D F c a) as [| |mv] eqn:E; try discriminate.
+  intros [= <-] Hmov Hex Hrd. apply move_of_wf in E as Hwf.
+  assert (Hp : forall p, p ∈ movers b -> procs (apply_move c mv) !! p = procs c !! p).
+  { intros p Hp. eapply procs_apply_move_old; [done|done|by apply Hex|set_solver]. }
+  assert (Hc : forall k, k ∈ reads md D c b -> chans (apply_move c mv) !! k = chans c !! k).
+  { intros k Hk. destruct (Hrd k Hk) as [Hk1 Hk2]. apply chans_apply_move_ne. intros Hw.
+    destruct (writes_footprint _ _ _ _ _ _ Hwf Hw) as [?|(n & -> & Hn)]; [done|].
+    eapply ns_ok_not_fresh_cid; [done|apply (mwf_self _ _ _ _ _ Hwf)|done|done|done]. }
+  split; [by apply move_of_ext|]. split; [by apply reads_ext|by apply closes_ext].
+Qed.
